@@ -15,7 +15,9 @@ INJECTED = ["AppHandle", "tauri::AppHandle", "AppHandle<R>", "tauri::AppHandle<R
             # module-qualified spellings of the same framework types (tauri::window::Window, tauri::webview::WebviewWindow exist in Tauri 2)
             "tauri::window::Window<R>", "tauri::webview::WebviewWindow<R>", "tauri::webview::WebviewWindow", "tauri::AppHandle<tauri::Wry>",
             "tauri::State<'_, std::sync::Arc<Mutex<AppState>>>", "State<'_, std::collections::HashMap<String, AppState>>"]
-CHANNELS = ["Channel<Msg>", "tauri::ipc::Channel<Msg>", "Channel<String>", "Channel<Vec<Msg>>"]
+CHANNELS = ["Channel<Msg>", "tauri::ipc::Channel<Msg>", "Channel<String>", "Channel<Vec<Msg>>",
+            # the message type has a default: the path-qualified name alone is Tauri's channel as well
+            "tauri::ipc::Channel", "tauri::ipc::Channel<>", "tauri::Channel<Msg>", "::tauri::ipc::Channel<Msg>"]
 NAMES = ["id", "user_id", "first_name_2", "a", "x1", "y_1", "get_2fa", "_lead", "__dunder", "a__b", "x___y", "trailing_", "http_status_code",
          "a1_b2_c3", "on_event", "on_progress", "_", "z_9_z", "very_long_parameter_name_with_many_words", "r#type", "r#match", "is_ok", "i", "n2",
          "größe_max", "naïve", "user_名前"]     # (serde_derive itself panics on a non-ASCII FIRST letter under rename_all)
